@@ -298,6 +298,12 @@ def _scaling(prog, ev, mb, dm, table_name, res_name):
         st = State()
         point = ev.new_inst(st, ddp, {'Mach': S('M'), 'CD': S('cd')})
         st.env.update({iname: S('i'), pname: point, res_name: SymObj('interp')})
+        for n_ in ast.walk(loop):
+            if isinstance(n_, ast.Name) and isinstance(n_.ctx, ast.Load) and n_.id not in st.env:
+                try:
+                    ev.lookup(n_.id, State(), Ctx(dm, mb, None, 0))
+                except Undecided:
+                    st.env[n_.id] = S(f'${n_.id}')
         out = ev.new_list(st, [])
         for n in ast.walk(loop):
             if isinstance(n, ast.Call) and isinstance(n.func, ast.Attribute) and n.func.attr == 'append' \
